@@ -398,7 +398,7 @@ pub fn generate(a: &Args) -> Vec<Vec<String>> {
         let mut lines = vec![format!("new {variant} {mc} {ms} {act} {buf} {bor} {ovq} {ovr} {ff} {loans} {ecb} {scb}")];
         let mut g = GenState { clients: vec![], servers: vec![], all_pendings: vec![], all_actives: vec![], queued_resp: HashMap::new(), nc: 0, ns: 0, nr: 0, na: 0, tag: 0 };
         // weights: cclient cserver dclient dserver send recvreq respond dactive recvresp dpending dresp connected aconnected has hasreq hint ahint upd stray cycle
-        let wts: [u64; 20] = if sat { [3, 3, 1, 1, 20, 14, 30, 3, 24, 3, 8, 2, 2, 2, 1, 1, 1, 2, 2, 0] }
+        let wts: [u64; 20] = if sat { [3, 3, 1, 1, 20, 14, 30, 3, 24, 3, 8, 2, 2, 2, 1, 1, 1, 2, 2, 4] }
             else if churn { [8, 6, 8, 4, 15, 12, 13, 5, 12, 7, 5, 3, 4, 2, 1, 2, 2, 2, 2, 6] }
             else { [6, 6, 3, 3, 16, 13, 16, 5, 15, 6, 6, 3, 3, 2, 1, 2, 2, 2, 3, 1] };
         let total: u64 = wts.iter().sum();
@@ -414,7 +414,7 @@ pub fn generate(a: &Args) -> Vec<Vec<String>> {
             match k {
                 0 => {
                     // mostly only when there is room (a refused creation is tried now and then)
-                    if g.registered_clients() >= mcl && !rng.chance(15) { continue }
+                    if g.registered_clients() >= mcl && !rng.chance(4) { continue }
                     let ok = g.registered_clients() < mcl;
                     let c = g.nc; g.nc += 1;
                     let (m, ma) = if rng.chance(75) { ("-".to_string(), actl) } else { let m = rng.range(0, act + 1); (m.to_string(), m.max(1)) };
@@ -422,7 +422,7 @@ pub fn generate(a: &Args) -> Vec<Vec<String>> {
                     lines.push(format!("cclient {c} {m}"));
                 }
                 1 => {
-                    if g.registered_servers() >= msl && !rng.chance(15) { continue }
+                    if g.registered_servers() >= msl && !rng.chance(4) { continue }
                     let ok = g.registered_servers() < msl;
                     let s = g.ns; g.ns += 1;
                     if ok { g.servers.push(GServer { label: s, alive: true, actives: vec![], queue: vec![] }); }
@@ -527,6 +527,25 @@ pub fn generate(a: &Args) -> Vec<Vec<String>> {
                         3 => format!("dactive {s} {a}"), 4 => format!("recvresp {c} {r}"), 5 => format!("dpending {c} {r}"),
                         6 => format!("dresp {c} {}", rng.below(3)), 7 => format!("dclient {c}"), 8 => format!("dserver {s}"), _ => format!("cclient {c} -"),
                     });
+                }
+                19 if sat => {
+                    // answered requests whose responses are never fetched: the responses stay in their channels
+                    if live_c.is_empty() || live_s.is_empty() { continue }
+                    let (ci, si) = (*rng.pick(&live_c), *rng.pick(&live_s));
+                    if !g.clients[ci].pendings.is_empty() || !g.servers[si].queue.is_empty() { continue }
+                    let (c, s) = (g.clients[ci].label, g.servers[si].label);
+                    for _ in 0..rng.range(1, 5) {
+                        let r = g.nr; g.nr += 1; g.tag += 1;
+                        let a = g.na; g.na += 1;
+                        lines.push(format!("send {c} {r} {}", g.tag));
+                        lines.push(format!("recvreq {s} {a}"));
+                        for _ in 0..rng.range(1, 2) { g.tag += 1; lines.push(format!("respond {s} {a} {}", g.tag)); }
+                        g.all_pendings.push((c, r)); g.all_actives.push((s, a));
+                        lines.push(format!("dpending {c} {r}"));
+                        lines.push(format!("dactive {s} {a}"));
+                    }
+                    // the other servers saw the requests as well
+                    for (i, sv) in g.servers.iter_mut().enumerate() { if i != si { sv.queue.clear(); } }
                 }
                 19 if !live_s.is_empty() => {
                     // a client comes, sends, is answered or not, and goes completely while a server may still hold its request
